@@ -122,7 +122,7 @@ pub fn check(c: &Case) -> Result<bool, String> {
         return Ok(false);
     }
     let n = c.n();
-    let names: Vec<String> = (0..n).map(|i| format!("smp{i}")).collect();
+    let names: Vec<String> = crate::samples::odd_names(n);
     let samples = c.samples();
     let planted = c.planted();
     let f = FilterSpec { thr: n, filt: Filt::NoConst, ambig_missing: false, mask: false, nogap: false };
@@ -394,9 +394,10 @@ pub fn run(ctx: &Ctx, rep: &mut Report) {
             let mut args: Vec<String> = vec!["align".into(), "--min-freq".into(), "1".into(), "--threads".into(), "2".into()];
             let mut want_names = Vec::new();
             for i in 0..n {
-                std::fs::write(format!("{dir}/smp{i}.fa"), scratch::fasta(&samples[i])).unwrap();
-                args.push(format!("smp{i}.fa"));
-                want_names.push(format!("smp{i}"));
+                let nm = crate::samples::odd_name(i);
+                std::fs::write(format!("{dir}/{nm}.fa"), scratch::fasta(&samples[i])).unwrap();
+                args.push(format!("{nm}.fa"));
+                want_names.push(nm);
             }
             let av: Vec<&str> = args.iter().map(|s| s.as_str()).collect();
             let o = cli::run(&av, &dir, None);
